@@ -421,17 +421,18 @@ def check(F, run, tier):
     # ---- copy source is the cursor
     fn = F.fn(MR + "::ReadImplementation", nparams=2)
     for f2 in (fn, F.fn(MR + "::ReadPartial", nparams=2)):
-        mc = [nd for nd in f2.nodes if nd["k"] in CALLS and nd.get("fname") == "memcpy"]
+        from ..through import find_calls
+        mc = find_calls(F, f2, lambda nd: nd.get("fname") == "memcpy")      # (in the function, or in a helper it runs on itself)
         if len(mc) != 1:
             raise AnalysisBroken("expected one memcpy in %s" % f2.qn)
-        src = f2.term(mc[0]["args"][1])
+        src = mc[0].args()[1]
         want = ("op", "+", ("mem", ("this",), "streamBuffer"), ("mem", ("this",), "position"))
-        dst = f2.term(mc[0]["args"][0])
+        dst = mc[0].args()[0]
         if src == want and dst == ("var", f2.params[0]["n"], f2.params[0]["d"]):
-            run.add(ok("R-SEQ", f2.qn + "#copy-source", f2.loc(mc[0]["id"]), f2.qn,
+            run.add(ok("R-SEQ", f2.qn + "#copy-source", f2.loc(mc[0].outer_id()), f2.qn,
                        "bytes are copied from streamBuffer + position into the caller's buffer", fmt_term(src), nontrivial=False))
         else:
-            run.add(bad("R-SEQ", f2.qn + "#copy-source", f2.loc(mc[0]["id"]), f2.qn,
+            run.add(bad("R-SEQ", f2.qn + "#copy-source", f2.loc(mc[0].outer_id()), f2.qn,
                         "bytes are copied from streamBuffer + position into the caller's buffer",
                         "memcpy(%s, %s, …)" % (fmt_term(dst), fmt_term(src))))
 
